@@ -129,4 +129,37 @@ def build():
     ]
     b = body("pv::synth::result_string_from_results", 1, tys, blocks)
     out[b.key] = b
+    # String::extend(&mut String, inner.flat_map(f)):  for x in inner { String::extend(s, f(x)) }
+    # locals: 0 ret, 1 &mut String, 2 inner iterator, 3 f, 4 &mut inner, 5 Option<T>, 6 discr, 7 item, 8 unit, 9 (T,), 10 &mut F, 11 U
+    EXT = "<alloc::string::String as core::iter::traits::collect::Extend<char>>::extend"
+    tys = ["()", "&mut alloc::string::String", "I", "F", "&mut I", "core::option::Option<T>", "isize", "T", "()", "(T,)", "&mut F", "U"]
+    blocks = [
+        block([assign(4, ref(2)), assign(10, ref(3))], goto(1)),
+        block([], call(NEXT, [cp(4)], 5, 2)),
+        block([assign(6, {"k": "discriminant", "place": P(5), "ty": tys[5], "variants": OPT_VARIANTS})], {"k": "switch", "discr": mv(6), "ty": "isize", "targets": [[0, 6], [1, 3]], "otherwise": 7, "span": SPAN}),
+        block([assign(7, use(some_payload(5, "T"))), assign(9, tup(mv(7)))], call("core::ops::function::FnMut::call_mut", [cp(10), mv(9)], 11, 4)),
+        block([], call(EXT, [cp(1), mv(11)], 8, 5)),
+        block([], goto(1)),
+        block([assign(0, unit())], {"k": "return"}),
+        block([], {"k": "unreachable"}),
+    ]
+    b = body("pv::synth::string_extend_flat_map", 3, tys, blocks)
+    out[b.key] = b
+    # str::replace(pred, to) continued from a buffer:  for c in chars { if pred(c) { buf.push_str(to) } else { buf.push(c) } } buf
+    # locals: 0 ret, 1 buf, 2 chars, 3 pred, 4 to, 5 &mut chars, 6 Option<char>, 7 discr, 8 char, 9 (char,), 10 &mut pred, 11 bool, 12 unit, 13 &mut buf
+    S = "alloc::string::String"
+    tys = [S, S, "I", "F", "&str", "&mut I", "core::option::Option<char>", "isize", "char", "(char,)", "&mut F", "bool", "()", "&mut " + S]
+    blocks = [
+        block([assign(5, ref(2)), assign(10, ref(3)), assign(13, ref(1))], goto(1)),
+        block([], call(NEXT, [cp(5)], 6, 2)),
+        block([assign(7, {"k": "discriminant", "place": P(6), "ty": tys[6], "variants": OPT_VARIANTS})], {"k": "switch", "discr": mv(7), "ty": "isize", "targets": [[0, 7], [1, 3]], "otherwise": 8, "span": SPAN}),
+        block([assign(8, use(some_payload(6, "char"))), assign(9, tup(cp(8)))], call("core::ops::function::FnMut::call_mut", [cp(10), mv(9)], 11, 4)),
+        block([], {"k": "switch", "discr": mv(11), "ty": "bool", "targets": [[0, 5]], "otherwise": 6, "span": SPAN}),
+        block([], call("alloc::string::String::push", [cp(13), cp(8)], 12, 1)),
+        block([], call("alloc::string::String::push_str", [cp(13), cp(4)], 12, 1)),
+        block([assign(0, use(mv(1)))], {"k": "return"}),
+        block([], {"k": "unreachable"}),
+    ]
+    b = body("pv::synth::str_replace_pred", 4, tys, blocks)
+    out[b.key] = b
     return out
